@@ -1,7 +1,7 @@
 (* C13 — authorization codes are redirected only to the client's own https hosts
    (decision layer over the components url.Parse delivers; agreement between net/url and a
    browser on what "the host" of the raw string is, is checked differentially, not proved). *)
-From KM Require Import Base.Bytes Model.Redirect Proofs.Redirect.
+From KM Require Import Base.Bytes Model.Redirect Proofs.Redirect Model.UrlSplit Proofs.UrlSplit.
 
 Theorem c13_decision : forall domains np re parse,
   can_redirect domains np re parse = true ->
@@ -39,3 +39,40 @@ Theorem c13_old_rule_refuted : exists host d,
   host_matches_old host d = true /\ host_matches host d = false.
 Proof. exact old_rule_refuted. Qed.
 Print Assumptions c13_old_rule_refuted.
+
+(* Layer B: on the conservative grammar  "https://" host [":" port] ["/" path]  (host over
+   a-z 0-9 - . ; no user-info, escapes, backslashes or upper case) the splitter — compared with
+   net/url.Parse by the correspondence check — returns exactly the parts of the raw string ... *)
+Theorem c13_split_complete : forall host portpart path,
+  host <> [] -> forallb is_hostc host = true ->
+  (portpart = [] \/ exists port, portpart = COLON :: port /\ port <> [] /\ forallb is_digit port = true) ->
+  path_ok path = true ->
+  plain_split (https_pfx ++ host ++ portpart ++ path) = Some (mkp host (host ++ portpart) path).
+Proof. exact plain_split_complete. Qed.
+Print Assumptions c13_split_complete.
+
+Theorem c13_split_sound : forall s u, plain_split s = Some u ->
+  exists portpart,
+    s = https_pfx ++ hostname u ++ portpart ++ upath u /\
+    hostname u <> [] /\ forallb is_hostc (hostname u) = true /\
+    (portpart = [] \/ exists port, portpart = COLON :: port /\ port <> [] /\ forallb is_digit port = true) /\
+    path_ok (upath u) = true /\
+    uhost u = hostname u ++ portpart /\ scheme u = https /\ opaque u = false /\ rawquery u = [].
+Proof. exact plain_split_sound. Qed.
+Print Assumptions c13_split_sound.
+
+(* ... so that on raw strings of that grammar acceptance means: the bytes between "https://"
+   and the first ':' , '/' or the end ARE a configured domain or a dot-separated subdomain *)
+Theorem c13_plain_grammar : forall domains np re s,
+  domains <> [] -> can_redirect domains np re (plain_split s) = true ->
+  exists host rest d,
+    s = https_pfx ++ host ++ rest /\ host <> [] /\ forallb is_hostc host = true /\
+    (rest = [] \/ exists c r, rest = c :: r /\ (c = COLON \/ c = SLASH)) /\
+    In d domains /\ dom_spec host d.
+Proof. exact plain_grammar_decision. Qed.
+Print Assumptions c13_plain_grammar.
+
+Example c13_plain_nonvacuous :
+  can_redirect [[101;120;46;99;111]] 0 false
+    (plain_split (https_pfx ++ [97;46;101;120;46;99;111] ++ [58;52;52;51] ++ [47;99;98])) = true.
+Proof. vm_compute. reflexivity. Qed.
